@@ -27,6 +27,7 @@ type HReq struct {
 	ItemId string `json:"id,omitempty"`   // good | empty | short | long
 	Vec    string `json:"vec,omitempty"`  // good | empty | short | long | nan | inf | huge
 	Meta   string `json:"meta,omitempty"` // none | small | longkey | longval | many | widekey | wideval | edgekey
+	Pair   string `json:"pair,omitempty"` // "delete-victim": while this request runs, the second healthy dataset is deleted through another node
 	Slot   int    `json:"slot,omitempty"` // which of a few shared item ids the request is about (requests in any ORDER on the same item)
 	K      uint32 `json:"k,omitempty"`
 	Items  int    `json:"items,omitempty"`
@@ -56,6 +57,52 @@ func genC12(r *simrt.Rand, tier string) json.RawMessage {
 	rpcs := []string{"Insert", "Update", "Remove", "BatchInsert", "BatchUpdate", "BatchRemove", "PartitionBatchInsert", "PartitionBatchUpdate", "PartitionBatchRemove",
 		"PartitionInfo", "Search", "SearchPartitions", "Create", "Get", "Delete", "GetDatasetSize", "List"}
 	n := r.Range(1, 6)
+	if r.Bool(0.15) {
+		// a dataset is deleted while requests are writing to it (the partitions' raft groups
+		// are unloaded under the running handlers)
+		n = r.Range(1, 3)
+		for i := 0; i < n; i++ {
+			h := HReq{Rpc: pick("Insert", "Update", "Remove", "BatchInsert", "BatchInsert", "BatchUpdate", "BatchRemove", "Search"), Node: r.Range(1, c.W3.Nodes), Seq: i, Slot: r.Intn(3)}
+			h.DsId, h.ItemId, h.Vec, h.Part, h.Meta = "victim", "good", "good", "good", pick("none", "small")
+			h.Items = []int{1, 3, 100}[r.Intn(3)]
+			h.K = uint32(r.Range(0, 20))
+			h.Burst = r.Range(2, 6)
+			if i == n-1 {
+				h.Pair = "delete-victim"
+			}
+			c.Reqs = append(c.Reqs, h)
+		}
+		c.W3.Cfg.Deep, c.W3.Cfg.Burst = []int{40, 160, 400}[r.Intn(3)], []int{20, 50}[r.Intn(2)]
+		b, _ := json.Marshal(c)
+		return b
+	}
+	if r.Bool(0.4) {
+		// plausible sequences: mostly well-formed item requests that meet on the shared items,
+		// with at most one odd field each - what one request leaves behind is the input of the next
+		n = r.Range(3, 8)
+		itemRpcs := []string{"Insert", "Update", "Remove", "BatchInsert", "BatchUpdate", "BatchRemove", "PartitionBatchInsert", "PartitionBatchUpdate", "PartitionBatchRemove", "Update", "BatchUpdate"}
+		for i := 0; i < n; i++ {
+			h := HReq{Rpc: itemRpcs[r.Intn(len(itemRpcs))], Node: r.Range(1, c.W3.Nodes), Seq: i, Slot: r.Intn(3)}
+			h.DsId, h.ItemId, h.Vec, h.Part = "good", "good", "good", "good"
+			h.Meta = pick("none", "none", "small", "small", "edgekey")
+			h.Items = []int{1, 1, 3}[r.Intn(3)]
+			h.Dup = r.Bool(0.2)
+			h.K = 5
+			switch r.Intn(10) { // one odd field, sometimes
+			case 0:
+				h.Vec = pick("empty", "short", "long", "nan", "inf", "collinear")
+			case 1:
+				h.Meta = pick("longkey", "longval", "many", "widekey", "wideval")
+			case 2:
+				h.ItemId = pick("empty", "short", "long")
+			case 3:
+				h.Level = []int32{-1, -2, math.MinInt32, 7}[r.Intn(4)]
+			}
+			c.Reqs = append(c.Reqs, h)
+		}
+		b, _ := json.Marshal(c)
+		return b
+	}
 	for i := 0; i < n; i++ {
 		h := HReq{Rpc: rpcs[r.Intn(len(rpcs))], Node: r.Range(1, c.W3.Nodes), Seq: i}
 		h.DsId = pick("good", "good", "good", "victim", "victim", "unknown", "empty", "short", "long")
@@ -260,6 +307,18 @@ func (r *W3Run) hostile(h HReq, good *dsInfo) (panicked string, err error) {
 		m := s.nodes[(h.Node-1+j)%len(s.nodes)]
 		if m.alive {
 			extra = append(extra, s.client(m, label, 20*time.Second, call))
+		}
+	}
+	if v := r.ds[1]; h.Pair == "delete-victim" && v != nil && v.ackedCreate && !v.ackedDelete {
+		m := s.nodes[h.Node%len(s.nodes)]
+		if m.alive {
+			vid := v.id
+			v.ackedDelete = true
+			s.runFor(time.Duration(h.K%7) * time.Millisecond)
+			extra = append(extra, s.client(m, "delete the dataset the running requests are writing to", 8*time.Second, func(ctx context.Context, n *simNode) (interface{}, error) {
+				return n.svcDM.Delete(ctx, &pb.UUIDRequest{Id: vid.Bytes()})
+			}))
+			s.out.Stat("datasets_deleted_under_hostile_traffic", 1)
 		}
 	}
 	s.runUntil(func() bool {
